@@ -682,6 +682,9 @@ func runExchange(t *verifsim.Tape, cfg engine.Config, prop string) *engine.Outco
 			}
 		case "plain-error":
 			scriptErr = fmt.Errorf("plain failure %d", xi)
+			if t.Draw("plain-error-percent", 3) == 0 {
+				scriptErr = errors.New(fmt.Sprintf("plain failure %d: disk 100%% full, %%d of %%s left (%%!)", xi))
+			}
 			// plain errors come in kinds: some advertise Timeout()/Temporary() (context and net errors do); none of
 			// that makes them anything but an internal fault of a service that did not declare them
 			switch t.Draw("plain-error-kind", 6) {
@@ -1151,6 +1154,9 @@ func judgeError(o *engine.Outcome, w *world, d *spec.Design, s *spec.Service, m 
 		var er goahttp.ErrorResponse
 		if err := json.Unmarshal(ex.RespBody, &er); err != nil || !er.Fault || er.Name != "fault" {
 			o.Violate("plain_error_body", "plain_error_body", "%s: a plain Go error produced body %q, want a fault error response", where, clipS(string(ex.RespBody)))
+		} else if scriptErr != nil && er.Message != scriptErr.Error() {
+			// (the only thing the service said: the fault carries the error's text as it is)
+			o.Violate("plain_error_body", "plain_error_message", "%s: the fault's message is %q, the service's error says %q", where, er.Message, scriptErr.Error())
 		}
 	}
 	ct := ex.RespHeader.Get("Content-Type")
